@@ -48,7 +48,10 @@ for item in spec:
                 text = text.encode('latin-1')
             for ent in item['entries']:
                 try:
-                    parse = g.parse if ent is None else getattr(g, ent).parse
+                    if isinstance(ent, list):
+                        parse = getattr(g, ent[0]).parse(*ent[1])       # parameterised class: Cls.parse(args)(text)
+                    else:
+                        parse = g.parse if ent is None else getattr(g, ent).parse
                     v = parse(text)
                     table.append(['RET', canon(v), None])
                 except Exception as x:
@@ -100,6 +103,19 @@ def source_jobs(tier):
             yield tag, j
 
 
+def entry_point_jobs():
+    """parameterised classes used as entry points: Cls.parse(args)(text)"""
+    W = ('W', ('rule', None, ('re', '[ab]+')))
+    tg = ('Tg', ('class', ['n'], [('t', False, ('py', 'repr(n)')), ('w', False, ('ref', 'W'))]))
+    cv = ('Cv', ('class', ['nq', 'tg'], [('nw', False, ('py', '(nq, tg)')), ('more', False, ('rep', ('re', '[ab]'), 'nq', 'nq'))]))
+    kp = ('Kp', ('class', ['p'], [('x', False, ('ref', 'p')), ('y', False, ('opt', ('ref', 'W')))]))
+    for ign in ((), (('re', ' +'),)):
+        for style in (('named', 'anon') if ign else ('named',)):
+            rules = (('start', ('rule', None, ('star', ('ref', 'W')))), W, tg, cv)
+            yield 'entry', {'mods': [(rules, ign, 'start', None, (), False, style, None)], 'inputs': 'ab\\s:3',
+                            'arg_entries': [['Tg', [1]], ['Tg', [True]], ['Tg', [None]], ['Tg', [[1, 'x']]], ['Cv', [2, 'x']], ['Cv', [0, None]], ['Cv', [1, 1.0]]]}
+
+
 def chain_jobs(tier):
     from . import c13
     k = 0
@@ -116,9 +132,15 @@ def table_for(g, inputs, entries, bytes_mode):
         t = text.encode('latin-1') if bytes_mode else text
         for ent in entries:
             try:
-                parse = impl.entry(g, ent)
+                if isinstance(ent, list):
+                    parse = impl.entry(g, ent[0])(*ent[1])
+                else:
+                    parse = impl.entry(g, ent)
             except AttributeError:
                 out.append(['EXC', 'AttributeError', None])
+                continue
+            except Exception as x:
+                out.append(['EXC', type(x).__name__, None])
                 continue
             o = impl.run(parse, e1.fresh(t), 0, True, time_limit=1.0, patient=True)
             if o['kind'] == 'RET':
@@ -189,11 +211,39 @@ def run_chunk(chunk):
                 for n, m in zip(names, mods):
                     with open(os.path.join(work, n + '.py'), 'w') as f:
                         f.write(m._source_code)
-                items.append({'id': idx, 'modules': names, 'inputs': inputs, 'entries': entries, 'bytes': False})
-                expect[idx] = (tag, descs, base)
+                items.append({'id': idx * 10 + 5, 'modules': names, 'inputs': inputs, 'entries': entries, 'bytes': False})
+                expect[idx * 10 + 5] = (tag, descs, base)
                 res['ctr']['states'] += 2
                 for n in names:
                     impl.uninstall(n)
+                # mixed variant: the base grammar is its emitted source executed as a module of that name; the derived
+                # grammars are then compiled (in memory) against that parent
+                import types
+                pm = types.ModuleType(names[0])
+                try:
+                    exec(compile(mods[0]._source_code, names[0] + '.py', 'exec'), pm.__dict__)
+                    sys.modules[names[0]] = pm
+                    last = pm
+                    for d in descs[1:]:
+                        b = impl.build(d, include_source=True)
+                        if b[0] != 'OK':
+                            viol(tag, 'COMPILE against a parent made from its emitted source', descs, list(b))
+                            last = None
+                            break
+                        last = b[1]
+                    if last is not None:
+                        tb = table_for(last, inputs, entries, False)
+                        res['ctr']['cases'] += len(tb)
+                        res['ctr']['states'] += 1
+                        if tb != base:
+                            k = next(i for i in range(len(base)) if tb[i] != base[i])
+                            viol(tag, 'differs with a parent made from its emitted source', descs,
+                                 {'input': inputs[k], 'in_memory': base[k], 'mixed': tb[k]})
+                except Exception as x:
+                    viol(tag, 'emitted parent source does not execute', descs, '%s: %s' % (type(x).__name__, x))
+                finally:
+                    for n in names:
+                        impl.uninstall(n)
                 continue
             specs = e1.mk_specs(j['mods'])
             sp = specs[0]
@@ -222,7 +272,7 @@ def run_chunk(chunk):
             inputs = good
             if not inputs:
                 continue
-            entries = [None] + [n for n, d in sp.rules if not d[1] and n != sp.start][:1]
+            entries = [None] + [n for n, d in sp.rules if not d[1] and n != sp.start][:1] + [list(e) for e in j.get('arg_entries', ())]
             desc = render.spec(sp, altf)
             sp.name = uid
             ndesc = render.spec(sp, altf)
@@ -330,6 +380,7 @@ def chunks(it, n):
 
 def all_jobs(tier):
     def gen():
+        yield from entry_point_jobs()
         yield from chain_jobs(tier)
         yield from source_jobs(tier)
     return chunks(gen(), 12)
@@ -339,8 +390,8 @@ def run(tier, seed):
     chk = Check('C11', tier, seed)
     chk.rule = ('descriptions taken from the universes of C01-C06 and C17 (every k-th job, ~3000 quick) and C13 chains x production variants '
                 '{unnamed, grammar <name> header} x {include_source off, on} x compiled twice x {in-memory module, emitted _source_code '
-                'saved and imported by a separate `python -I -S` interpreter that has only the standard library and the work directory}; '
-                'x up to 150 well-formed inputs x 2 entry points; oracle: all variants give identical outcomes incl. the ParseError index, '
+                'saved and imported by a separate `python -I -S` interpreter that has only the standard library and the work directory}; chains also with the base grammar replaced by its executed emitted source and the derived grammars compiled against it; '
+                'x up to 150 well-formed inputs x 2 entry points (a dedicated family adds parameterised classes as entry points, Cls.parse(args)(text), with 7 argument lists); oracle: all variants give identical outcomes incl. the ParseError index, '
                 'repeated compilation gives identical source text (also in a fresh interpreter with another PYTHONHASHSEED), the isolated interpreter imports nothing outside the standard library; '
                 'non-trivial = descriptions with at least one failing input')
     chk.assumptions = ['the isolated interpreter is the same CPython binary started with -I -S']
